@@ -179,3 +179,23 @@ func TestF7ScopeRange(t *testing.T) {
 		}
 	}
 }
+
+// F5: wildcard map at the queried name itself (v2 closest-key walk).
+func TestF5WildcardMapAtQueriedName(t *testing.T) {
+	data := "Zexample.com,a.ns.example.com,dns.example.com,1,7200,1800,604800,120,120,,\n&example.com,,a.ns.example.com,172800,,\n" +
+		"+wm.example.com,1.1.1.1,60,,\n+wm.example.com,2.2.2.2,60,,\\000\\001\n" +
+		"+a.wm.example.com,1.1.1.1,60,,\n+a.wm.example.com,2.2.2.2,60,,\\000\\001\n" +
+		"+b.a.wm.example.com,1.1.1.1,60,,\n+b.a.wm.example.com,2.2.2.2,60,,\\000\\001\n" +
+		"+zz.example.com,1.1.1.1,60,,\n+zz.example.com,2.2.2.2,60,,\\000\\001\n" +
+		"+example.com,1.1.1.1,60,,\n+example.com,2.2.2.2,60,,\\000\\001\n" +
+		"8*.wm.example.com,ea\nM*.wm.example.com,ma\n8x.zz.example.com,ea\n%\\000\\001,10.0.0.0/8,ea\n%\\000\\001,10.0.0.0/8,ma\n"
+	bs := build(t, data)
+	for _, name := range []string{"wm.example.com", "a.wm.example.com", "b.a.wm.example.com", "zz.example.com", "example.com", "x.zz.example.com", "q.x.zz.example.com"} {
+		for _, q := range [][2]string{{"10.1.1.1", ""}, {"9.9.9.9", "10.1.2.0/24"}, {"9.9.9.9", ""}} {
+			got := same(t, bs, "A", name, q[0], q[1])
+			if strings.Contains(got, "no response") || strings.Contains(got, "PANIC") {
+				t.Errorf("%s %v: %s", name, q, got)
+			}
+		}
+	}
+}
